@@ -859,6 +859,14 @@ class LayoutEval:
             bound[k] = v
         width_param = reader_width_param(self.repo, mod, cls, pos, bound)
         if width_param is None:
+            parse = self.find_method(mod, cls, "_parse")[0]
+            if moves_stream_itself(parse):
+                # a class that seeks / parses another construct itself: a field of width w when every path through _parse that returns
+                # leaves the stream w bytes behind where it found it (C05-F11 reports paths that disagree)
+                moves = {m for kind, _, m in parse_paths(self, mod, cls) if kind == "return"}
+                if moves == {0}:
+                    return Con("computed", expr=OpaqueValue(f"{cls.name}(...)"), size=lift(0))
+                raise AnalysisError(f"{cls.name}: this class moves the stream itself and its paths leave it at {sorted(moves, key=str)} relative to where they found it; its width is not decided")
             raise AnalysisError(f"{cls.name}: no constructor argument of this reader class is followed by the sizes of its reads; its width is not decided")
         if width_param not in bound:
             raise AnalysisError(f"{cls.name}(...): the width argument {width_param} is not given")
@@ -1102,6 +1110,183 @@ def _strip(path):
 
 
 _READER_WIDTH = {}
+
+
+STREAM_HELPERS = ("stream_read", "stream_seek", "stream_tell", "stream_read_entire", "stream_size", "stream_iseof", "stream_write")
+
+
+def moves_stream_itself(cls_parse):
+    """does this ``_parse`` seek, or hand its stream to another construct (as opposed to plainly reading its field)"""
+    for x in ast.walk(cls_parse):
+        if isinstance(x, ast.Call):
+            nm = x.func.id if isinstance(x.func, ast.Name) else x.func.attr if isinstance(x.func, ast.Attribute) else None
+            if nm in ("stream_seek", "seek", "_parsereport", "_parse", "parse_stream"):
+                return True
+    return False
+
+
+def parse_paths(evaluator, mod, cls):
+    """the paths through ``cls._parse`` with the net movement of the stream on each: a syntax-directed walk with the position
+    relative to entry as its state.  ``X._parsereport(stream, ..)`` of a construct with a constant size moves by that size,
+    ``stream_read(stream, n)`` by n, ``stream_seek(stream, k, 1)`` by k, ``stream_seek(stream, <tell value> + k, 0)`` to that place.
+    -> [(exit 'return' | 'raise', line, movement or None when it is not decided)]; AnalysisError when the walk itself does not apply"""
+    found = evaluator.find_method(mod, cls, "_parse")
+    if found is None:
+        raise AnalysisError(f"{cls.name}: no _parse")
+    fn, fmod = found[0], found[1]
+    params = [a.arg for a in fn.args.args]
+    if len(params) < 2:
+        raise AnalysisError(f"{cls.name}._parse: unexpected signature")
+    stream = params[1]
+    exits = []
+
+    class Undecided(Exception):
+        pass
+
+    def val(e, env):
+        """-> int, ('abs', k) for a position known relative to entry, or None"""
+        if isinstance(e, ast.Constant) and isinstance(e.value, int) and not isinstance(e.value, bool):
+            return e.value
+        if isinstance(e, ast.Name):
+            return env.get(e.id)
+        if isinstance(e, ast.UnaryOp) and isinstance(e.op, ast.USub):
+            v = val(e.operand, env)
+            return -v if isinstance(v, int) else None
+        if isinstance(e, ast.BinOp) and isinstance(e.op, (ast.Add, ast.Sub, ast.Mult)):
+            l, r = val(e.left, env), val(e.right, env)
+            if isinstance(l, int) and isinstance(r, int):
+                return l + r if isinstance(e.op, ast.Add) else l - r if isinstance(e.op, ast.Sub) else l * r
+            if isinstance(l, tuple) and isinstance(r, int) and isinstance(e.op, (ast.Add, ast.Sub)):
+                return ("abs", l[1] + (r if isinstance(e.op, ast.Add) else -r))
+            if isinstance(r, tuple) and isinstance(l, int) and isinstance(e.op, ast.Add):
+                return ("abs", r[1] + l)
+            return None
+        if isinstance(e, ast.Call) and isinstance(e.func, ast.Attribute) and e.func.attr == "sizeof" and not e.args:
+            try:
+                return evaluator.static_size(evaluator.as_con(evaluator.ev(e.func.value, fmod, {}), e))
+            except AnalysisError:
+                return None
+        return None
+
+    def uses_stream(e):
+        return any(isinstance(x, ast.Name) and x.id == stream for x in ast.walk(e))
+
+    def effect(call, st):
+        """apply one call to the state; -> value of the call for `val` (or None)"""
+        f = call.func
+        nm = f.id if isinstance(f, ast.Name) else f.attr if isinstance(f, ast.Attribute) else None
+        first_is_stream = bool(call.args) and isinstance(call.args[0], ast.Name) and call.args[0].id == stream
+        on_stream = isinstance(f, ast.Attribute) and isinstance(f.value, ast.Name) and f.value.id == stream
+        if not (first_is_stream or on_stream or any(uses_stream(a) for a in call.args) or any(uses_stream(k.value) for k in call.keywords)):
+            return None
+        args = call.args[1:] if first_is_stream and not on_stream else call.args
+        if nm in ("stream_tell", "tell"):
+            return ("abs", st["pos"]) if st["pos"] is not None else None
+        if nm in ("stream_read", "read"):
+            n = val(args[0], st["env"]) if args else None
+            st["pos"] = st["pos"] + n if isinstance(n, int) and st["pos"] is not None else None
+            return None
+        if nm in ("stream_seek", "seek"):
+            off = val(args[0], st["env"]) if args else None
+            wh = args[1].value if len(args) > 1 and isinstance(args[1], ast.Constant) else 0 if len(args) < 2 else None
+            for k in call.keywords:
+                if k.arg == "whence":
+                    wh = k.value.value if isinstance(k.value, ast.Constant) else None
+            if wh == 1 and isinstance(off, int):
+                st["pos"] = st["pos"] + off if st["pos"] is not None else None
+            elif wh == 0 and isinstance(off, tuple):
+                st["pos"] = off[1]
+            else:
+                st["pos"] = None
+            return None
+        if nm in ("_parsereport", "_parse", "parse_stream") and isinstance(f, ast.Attribute) and first_is_stream:
+            try:
+                size = evaluator.static_size(evaluator.as_con(evaluator.ev(f.value, fmod, {}), call))
+            except AnalysisError:
+                size = None
+            st["pos"] = st["pos"] + size if size is not None and st["pos"] is not None else None
+            return None
+        st["pos"] = None  # the stream is handed to something the walk does not know
+        return None
+
+    def run_expr(e, st):
+        """effects of the calls of an expression, innermost first, left to right -> value of the outermost call if it is one"""
+        if e is None:
+            return None
+        out = None
+        for child in ast.iter_child_nodes(e):
+            if isinstance(child, ast.expr) or isinstance(child, ast.keyword):
+                run_expr(child.value if isinstance(child, ast.keyword) else child, st)
+        if isinstance(e, ast.Call):
+            out = effect(e, st)
+        return out
+
+    def block(stmts, st):
+        """-> list of states that fall off the end of the block"""
+        states = [st]
+        for s_ in stmts:
+            nxt = []
+            for st in states:
+                nxt += stmt(s_, st)
+            states = nxt
+            if not states:
+                break
+        return states
+
+    def fork(st):
+        return {"pos": st["pos"], "env": dict(st["env"])}
+
+    def stmt(s_, st):
+        if isinstance(s_, ast.Return):
+            run_expr(s_.value, st)
+            exits.append(("return", s_.lineno, st["pos"]))
+            return []
+        if isinstance(s_, ast.Raise):
+            exits.append(("raise", s_.lineno, st["pos"]))
+            return []
+        if isinstance(s_, (ast.Assign, ast.AnnAssign, ast.AugAssign)):
+            v = run_expr(s_.value, st)
+            if v is None and s_.value is not None:
+                v = val(s_.value, st["env"])
+            targets = s_.targets if isinstance(s_, ast.Assign) else [s_.target]
+            for t in targets:
+                for x in ast.walk(t):
+                    if isinstance(x, ast.Name):
+                        st["env"].pop(x.id, None)
+            if isinstance(s_, ast.Assign) and len(targets) == 1 and isinstance(targets[0], ast.Name) and v is not None:
+                st["env"][targets[0].id] = v
+            return [st]
+        if isinstance(s_, ast.Expr):
+            run_expr(s_.value, st)
+            return [st]
+        if isinstance(s_, ast.If):
+            run_expr(s_.test, st)
+            a, b = fork(st), fork(st)
+            return block(s_.body, a) + block(s_.orelse, b)
+        if isinstance(s_, ast.Try):
+            before = fork(st)
+            out = block(s_.body, st)
+            if s_.orelse:
+                out = [y for x in out for y in block(s_.orelse, x)]
+            for h in s_.handlers:
+                hs = fork(before)
+                hs["pos"] = None  # how far the body got when it failed is not known; an absolute seek to a remembered place decides it again
+                out += block(h.body, hs)
+            if s_.finalbody:
+                if any(isinstance(x, ast.Call) and (uses_stream(x)) for f_ in s_.finalbody for x in ast.walk(f_)):
+                    raise AnalysisError(f"{cls.name}._parse: the stream is used in a finally block")
+            return out
+        if isinstance(s_, (ast.Pass, ast.Import, ast.ImportFrom, ast.Global, ast.Nonlocal, ast.Assert, ast.Delete)):
+            return [st]
+        if isinstance(s_, (ast.For, ast.While, ast.With, ast.Match, ast.FunctionDef, ast.ClassDef)):
+            if any(isinstance(x, ast.Name) and x.id == stream for x in ast.walk(s_)) or any(isinstance(x, (ast.Return,)) for x in ast.walk(s_)):
+                raise AnalysisError(f"{cls.name}._parse: the stream is used inside a {type(s_).__name__.lower()} statement; its movement is not decided")
+            return [st]
+        raise AnalysisError(f"{cls.name}._parse: statement {type(s_).__name__} is not followed")
+
+    for st in block(fn.body, {"pos": 0, "env": {}}):
+        exits.append(("return", fn.body[-1].end_lineno or fn.lineno, st["pos"]))
+    return exits
 
 
 def reader_parse(I, mod, cls, ctor_kwargs, content):
